@@ -149,6 +149,7 @@ impl ErrInto<AttachErrorS> for AttachErrorS { open spec fn conv(self) -> AttachE
 impl ErrInto<DetachError> for DetachError { open spec fn conv(self) -> DetachError { self } fn err_into(self) -> (r: DetachError) { let e = self; assert(e == <DetachError as ErrInto<DetachError>>::conv(self)); e } }
 
 //@@ fn file=fe2o3-amqp/src/link/shared_inner.rs name=recv_remote_detach
+//@@ attr #[verifier::loop_isolation(false)]
 //@@ shape loops=loop
 //@@ generics
 //@@ nowhere
